@@ -237,6 +237,8 @@ class Evaluator:
             return static(contracts.SPECPREDS[name])
         if hasattr(builtins, name):
             return static(getattr(builtins, name))
+        if name in self.W.type_names:
+            return static(self.W.type_names[name])      # repo classes by name (contracts refer to them)
         raise Unsupported('unbound name %s in %s' % (name, frame.qualname))
 
     # ------------------------------------------------------------ attribute access
@@ -301,14 +303,12 @@ class Evaluator:
 
     def interface_method(self, cls, name):
         """the method `name` as declared for static type cls, if its contract is an interface contract"""
-        try:
-            a = inspect.getattr_static(cls, name)
-        except AttributeError:
-            return None
-        if isinstance(a, types.FunctionType) and repo.in_repo(a):
-            c = contracts.REG.get(repo.qualname_of(a))
-            if c is not None and c.interface_flag:
-                return a
+        for k in inspect.getmro(cls):
+            a = vars(k).get(name)
+            if isinstance(a, types.FunctionType) and repo.in_repo(a):
+                c = contracts.REG.get(repo.qualname_of(a))
+                if c is not None and c.interface_flag:
+                    return a
         return None
 
     def _attr_value(self, gk, what, v, heap):
